@@ -10,7 +10,9 @@ import (
 	"encoding/json"
 	"fmt"
 	"os"
+	"runtime/debug"
 	"strconv"
+	"strings"
 )
 
 type replay struct {
@@ -287,6 +289,17 @@ func Run(name string, h func()) (ok bool) {
 			ok = false
 		default:
 			if noPanic {
+				// a panic at a site recorded as a known finding ends the run like the finding's class
+				stack := string(debug.Stack())
+				for _, kp := range knownPanics {
+					site := strings.TrimSuffix(strings.TrimSuffix(kp[1], ")"), ")")
+					if cur.Known[kp[0]] && (strings.Contains(stack, site) || strings.Contains(stack, strings.ReplaceAll(site, ").", ")."))) {
+						fmt.Printf("VP-KNOWN %s panic %v\n", kp[0], r)
+						fmt.Printf("VP-RESULT assume-false\n")
+						ok = true
+						return
+					}
+				}
 				fmt.Printf("VP-RESULT panic %v\n", r)
 				ok = false
 			} else {
